@@ -113,9 +113,31 @@ def lib_decrypt(blob, key, kind, wrapper=True):
                                                         "document": "INFO_DOCUM"}[kind]))
 
 
-def _roundtrip(out, n, seed, key, kind, wrapper, content=None, buffer=None):
+def _roundtrip(out, n, seed, key, kind, wrapper, content=None, buffer=None, named_file=None):
+    if named_file:
+        # content is content, also when it reads like the name of a file that exists on this machine (a text file holding a path, a
+        # one-line note "setup.py"): what is encrypted is these bytes, not whatever the file system holds under that name
+        import tempfile
+        d = tempfile.mkdtemp(prefix="verif_c15_")
+        cwd = os.getcwd()
+        try:
+            with open(os.path.join(d, "media.bin"), "wb") as f:
+                f.write(plaintext_of(max(n, 1), seed) + b"-the file's content, not the message's")
+            if named_file == "relative":
+                os.chdir(d)
+            out.label("content_is_the_name_of_an_existing_file:" + named_file)
+            return _roundtrip(out, n, seed, key, kind, wrapper, buffer=buffer,
+                              content={"literal": (b"media.bin" if named_file == "relative" else os.fsencode(os.path.join(d, "media.bin"))).hex()})
+        finally:
+            os.chdir(cwd)
+            import shutil
+            shutil.rmtree(d, ignore_errors=True)
     pt = plaintext_of(n, seed)
     ctx = {"n": n, "kind": kind, "seed": seed}
+    if content is not None and "literal" in content:
+        pt = bytes.fromhex(content["literal"])
+        ctx["content"] = "literal bytes " + repr(pt[-20:])
+        content = None
     if buffer:
         ctx["buffer"] = buffer
         out.label("content_given_as=" + buffer)
@@ -358,7 +380,7 @@ def run_case(case):
     if sub == "rt":
         out.label("rt", "kind=" + kind, "aligned" if n % 16 == 0 else "unaligned",
                   "n=0" if n == 0 else "n<=64" if n <= 64 else "n<=4096" if n <= 4096 else "n>4096")
-        _roundtrip(out, n, seed, key, kind, bool(case.get("wrapper", 1)), case.get("content"), case.get("buffer"))
+        _roundtrip(out, n, seed, key, kind, bool(case.get("wrapper", 1)), case.get("content"), case.get("buffer"), case.get("named_file"))
         return out
     pt = plaintext_of(n, seed)
     blob = ref_encrypt(pt, key, kind)   # a ciphertext a real peer would send
@@ -452,6 +474,8 @@ def _enum_rt():
             for keyseed in (0, 1):
                 for wrapper in (0, 1):
                     yield {"sub": "rt", "n": n, "kind": kind, "keyseed": keyseed, "seed": 3 if n % 3 else 1, "wrapper": wrapper}
+    for k, named in enumerate(("absolute", "relative", "absolute", "relative")):
+        yield {"sub": "rt", "n": 5, "kind": k, "keyseed": 1, "seed": 3, "wrapper": k % 2, "named_file": named}
     for n in (0, 1, 15, 16, 17, 32, 4096):
         for buffer in ("bytearray", "memoryview"):
             yield {"sub": "rt", "n": n, "kind": n % 4, "keyseed": 1, "seed": 3, "wrapper": n % 2, "buffer": buffer}
@@ -507,7 +531,8 @@ def plan(tier):
     rt = st.builds(lambda n, k, key, s, w, c, b: dict({"sub": "rt", "n": n, "kind": k, "key": key, "seed": s, "wrapper": w},
                                                       **dict({"content": c} if c else {}, **({"buffer": b} if b else {}))),
                    n_st, st.integers(0, 3), keys, st.integers(0, 50), st.integers(0, 1), content,
-                   st.sampled_from([None, None, None, "bytearray", "memoryview"]))
+                   st.sampled_from([None, None, None, "bytearray", "memoryview"])).flatmap(
+        lambda c: st.sampled_from([c, c, c, c, c, c, dict(c, named_file="absolute"), dict(c, named_file="relative")]) if "content" not in c else st.just(c))
     small = st.integers(0, 200)
     tam = st.one_of(
         st.builds(lambda n, k, key, p, m: {"sub": "tamper", "n": n, "kind": k, "key": key, "pos": p, "mask": m},
@@ -558,3 +583,4 @@ if __name__ == "__main__":
 
 RULE += (' Also: the same tamper / round-trip cases in a child interpreter started with -O; content that is itself an encrypted file (same / other key and kind); one cipher object reused after rejected calls (a call that does not return within 10 s counts as stuck).')
 RULE += (" The content is handed over as bytes, as a bytearray or as a memoryview; a buffer is encrypted twice and must give the same ciphertext.")
+RULE += (" Content may be the name (absolute, or relative to the working directory) of a file that exists on this machine.")
